@@ -85,3 +85,11 @@ impl Panic {
 pub fn is_harness_site(site: &str) -> bool {
     site.starts_with("src/") || site.contains("/verif/harness/")
 }
+
+/// Run `f` on a new thread (fresh thread-locals) and wait for it; a panic is passed on.
+pub fn on_fresh_thread<R: Send>(f: impl FnOnce() -> R + Send) -> R {
+    std::thread::scope(|s| match s.spawn(f).join() {
+        Ok(r) => r,
+        Err(e) => std::panic::resume_unwind(e),
+    })
+}
